@@ -647,6 +647,7 @@ def inline_new_locals(prog):
             ckey = c.name + ".<class>"
             if ckey in ref:
                 known_c = set(ref[ckey])
+                class_consts = {t.id: copy.deepcopy(x.value) for x in c.node.body if isinstance(x, ast.Assign) and len(x.targets) == 1 for t in x.targets if isinstance(t, ast.Name)}
                 for st in list(c.node.body):
                     if isinstance(st, ast.Assign) and len(st.targets) == 1 and isinstance(st.targets[0], ast.Name):
                         nm = st.targets[0].id
@@ -655,6 +656,31 @@ def inline_new_locals(prog):
                             continue
                         if nm in known_c or not nm.startswith("_") or nm.startswith("__") or not _is_pure(st.value) or any(isinstance(x, ast.Call) for x in ast.walk(st.value)):
                             continue
+                        # names of other class-level constants inside the value mean nothing inside a method: write their values out
+                        # first (('point',) + _path_grids); a name that cannot be resolved this way keeps the constant where it is
+                        def closed(v, depth=0):
+                            class R(ast.NodeTransformer):
+                                ok = True
+
+                                def visit_Name(self, x):
+                                    if x.id in class_consts and depth < 5:
+                                        sub = closed(copy.deepcopy(class_consts[x.id]), depth + 1)
+                                        if sub is None:
+                                            R.ok = False
+                                            return x
+                                        return sub
+                                    if x.id not in ("True", "False", "None", "inf", "nan"):
+                                        R.ok = False
+                                    return x
+                            r = R()
+                            out = r.visit(v)
+                            return out if R.ok else None
+                        value = closed(copy.deepcopy(st.value))
+                        if value is None:
+                            continue
+                        if isinstance(value, ast.BinOp) and isinstance(value.op, ast.Add) and isinstance(value.left, ast.Tuple) and isinstance(value.right, ast.Tuple):
+                            value = ast.Tuple(elts=value.left.elts + value.right.elts, ctx=ast.Load())
+                        st.value = value
                         cnt = 0
                         for fn in c.methods.values():
                             for n in ast.walk(fn.node):
@@ -668,6 +694,23 @@ def inline_new_locals(prog):
                                             else:
                                                 setattr(n, fld, new)
                                             cnt += 1
+                        # read through another receiver (stage._NAME in a method class): same constant, provided the name is bound at class
+                        # level in this class only and never stored as an attribute anywhere
+                        elsewhere = any(isinstance(x, ast.Assign) and any(isinstance(t, ast.Name) and t.id == nm for t in x.targets) for k2 in prog.classes.values() if k2 is not c for x in k2.node.body)
+                        stored = any(isinstance(x, ast.Attribute) and x.attr == nm and isinstance(x.ctx, (ast.Store, ast.Del)) for m2 in prog.modules.values() for x in ast.walk(m2.tree))
+                        if not elsewhere and not stored:
+                            for m2 in prog.modules.values():
+                                for n in ast.walk(m2.tree):
+                                    for fld, val in ast.iter_fields(n):
+                                        vals = val if isinstance(val, list) else [val]
+                                        for idx, x in enumerate(vals):
+                                            if isinstance(x, ast.Attribute) and x.attr == nm and isinstance(x.value, ast.Name) and isinstance(x.ctx, ast.Load):
+                                                new = copy.deepcopy(st.value)
+                                                if isinstance(val, list):
+                                                    val[idx] = new
+                                                else:
+                                                    setattr(n, fld, new)
+                                                cnt += 1
                         if cnt:
                             c.node.body.remove(st)
                             done.append("%s: class constant %s (%d uses)" % (c.name, nm, cnt))
@@ -1094,6 +1137,12 @@ class _Canon(ast.NodeTransformer):
     def visit_Compare(self, n):
         # P14: B == True / B is True -> B;  B == False / B != True -> not B   (B syntactically boolean)
         self.generic_visit(n)
+        # P42: 'name' in ('a', 'b') with constants on both sides folds
+        if len(n.ops) == 1 and isinstance(n.ops[0], (ast.In, ast.NotIn)) and isinstance(n.left, ast.Constant) and isinstance(n.comparators[0], (ast.Tuple, ast.List, ast.Set)) \
+                and all(isinstance(e, ast.Constant) for e in n.comparators[0].elts):
+            r = n.left.value in [e.value for e in n.comparators[0].elts]
+            self.count += 1
+            return ast.copy_location(ast.Constant(value=r if isinstance(n.ops[0], ast.In) else not r), n)
         if len(n.ops) == 1 and isinstance(n.comparators[0], ast.Constant) and isinstance(n.comparators[0].value, bool) and _is_boolean_expr(n.left) \
                 and isinstance(n.ops[0], (ast.Eq, ast.NotEq, ast.Is, ast.IsNot)):
             same = isinstance(n.ops[0], (ast.Eq, ast.Is)) == n.comparators[0].value
@@ -1175,6 +1224,14 @@ class _Canon(ast.NodeTransformer):
     def visit_If(self, n):
         self._const_right(n.test)
         self.generic_visit(n)
+        # P42: an if whose test folded to a constant (or to `not <constant>`) is the branch taken
+        t = n.test
+        if isinstance(t, ast.UnaryOp) and isinstance(t.op, ast.Not) and isinstance(t.operand, ast.Constant) and isinstance(t.operand.value, bool):
+            t = ast.Constant(value=not t.operand.value)
+        if isinstance(t, ast.Constant) and isinstance(t.value, bool):
+            self.count += 1
+            taken = n.body if t.value else n.orelse
+            return taken if taken else ast.copy_location(ast.Pass(), n)
         # P20: `if not c: B else: A` -> `if c: A else: B` (both branches present, the else branch not an elif chain)
         if n.orelse and n.body and isinstance(n.test, ast.UnaryOp) and isinstance(n.test.op, ast.Not) and not (len(n.orelse) == 1 and isinstance(n.orelse[0], ast.If)) \
                 and not (len(n.body) == 1 and isinstance(n.body[0], ast.If) and n.body[0].orelse):
@@ -1502,6 +1559,14 @@ def unroll_name_loops(prog):
                             return n
                         if isinstance(n.target, ast.Tuple) and not all(isinstance(e, ast.Tuple) and len(e.elts) == len(tnames) for e in lit.elts):
                             return n
+                        # `if T: continue` at the top of the body guards the rest of it
+                        def deguard(body):
+                            for q, st in enumerate(body):
+                                if isinstance(st, ast.If) and not st.orelse and len(st.body) == 1 and isinstance(st.body[0], ast.Continue):
+                                    rest = deguard(body[q + 1:])
+                                    return body[:q] + ([ast.copy_location(ast.If(test=_negated(st.test), body=rest, orelse=[]), st)] if rest else [])
+                            return body
+                        n.body = deguard(n.body) or [ast.Pass()]
                         body_nodes = [x for st in n.body for x in ast.walk(st)]
                         if any(isinstance(x, (ast.Break, ast.Continue, ast.FunctionDef, ast.Lambda, ast.Yield, ast.YieldFrom)) for x in body_nodes):
                             return n
